@@ -51,6 +51,8 @@ pub enum SolverKind {
     BuilderDoorMicrolp,
     /// `ModelBuilder … solve_with(Clarabel)`
     BuilderDoorClarabel,
+    /// like `BuilderDoorMicrolp`, with a redundant `max(x0, x1) <= 1e6` row: the compiled model carries `$` helper variables
+    BuilderDoorMicrolpAux,
     /// microlp called directly like `milp_solver.rs` does: raw status / objective / `var_value`s
     RawMilp,
     /// microlp called directly like `simplex_solver.rs::solve_real_lp_problem_micro_lp` does
@@ -64,6 +66,7 @@ impl SolverKind {
             SolverKind::Milp => "milp", SolverKind::Auto => "auto", SolverKind::MicroLp => "microlp",
             SolverKind::Clarabel => "clarabel", SolverKind::Simplex => "simplex", SolverKind::RawMilp => "raw-milp",
             SolverKind::BuilderDoorMicrolp => "builder-door-microlp", SolverKind::BuilderDoorClarabel => "builder-door-clarabel",
+            SolverKind::BuilderDoorMicrolpAux => "builder-door-microlp-aux",
             SolverKind::BuilderMicrolp => "builder-microlp", SolverKind::BuilderAuto => "builder-auto", SolverKind::BuilderClarabel => "builder-clarabel",
             SolverKind::RawMicroLp => "raw-microlp", SolverKind::RawClarabel => "raw-clarabel",
         }
@@ -392,7 +395,7 @@ where T: Clone + serde::Serialize + serde::de::DeserializeOwned + Copy + std::fm
 /// the model rebuilt as a `ModelBuilder` and solved through `solve_with`: the `BuilderSolution` accessors against those of
 /// the `LpSolution` it wraps (the compiled model may differ from `lm` — derived bounds, column order — so only the
 /// AGREEMENT of the accessors is reported here, never values against `lm`)
-fn builder_door<S, T>(lm: &LinearModel, solver: S, conv: impl Fn(T) -> Val) -> Outcome
+fn builder_door<S, T>(lm: &LinearModel, solver: S, aux: bool, conv: impl Fn(T) -> Val) -> Outcome
 where
     S: rooc::Solver<Solution = rooc::LpSolution<T>>,
     T: Clone + serde::Serialize + serde::de::DeserializeOwned + Copy + std::fmt::Display + Into<f64>,
@@ -407,6 +410,10 @@ where
     let lin = |cs: &[f64]| -> Expr { rooc::builder::sum(cs.iter().zip(vars.iter()).filter(|(c, _)| **c != 0.0).map(|(c, v)| Expr::from(*v) * *c)) };
     for r in lm.constraints() {
         b = b.with(BuilderConstraint::new(lin(r.coefficients()), *r.constraint_type(), Expr::Number(r.rhs()), r.name()));
+    }
+    if aux && vars.len() >= 2 {
+        // never binding, but lowered through a `$` helper variable
+        b = b.with(BuilderConstraint::new(rooc::builder::max([Expr::from(vars[0]), Expr::from(vars[1])]), Comparison::LessOrEqual, Expr::Number(1.0e6), "aux_never_binds".into()));
     }
     b = match lm.optimization_type() {
         OptimizationType::Min => b.minimize(lin(lm.objective()) + lm.objective_offset()),
@@ -461,13 +468,13 @@ fn run(kind: SolverKind, lm: &LinearModel, o: &Opts, pin: bool) -> Outcome {
         }
         SolverKind::BuilderAuto => { use rooc::Solver; pack_milp(lm, rooc::Auto.solve(lm)) }
         SolverKind::BuilderClarabel => { use rooc::Solver; pack_real(lm, rooc::Clarabel.solve(lm)) }
-        SolverKind::BuilderDoorMicrolp => {
+        SolverKind::BuilderDoorMicrolp | SolverKind::BuilderDoorMicrolpAux => {
             let mut m = rooc::Microlp::new();
             if let Some(g) = o.mip_gap_bits { m = m.with_mip_gap(f64::from_bits(g)); }
             if let Some(ns) = o.time_limit_ns { m = m.with_time_limit(Duration::from_nanos(ns)); }
-            builder_door(lm, m, |v| match v { rooc::MILPValue::Bool(b) => Val::Bool(b), rooc::MILPValue::Int(i) => Val::Int(i), rooc::MILPValue::Real(r) => Val::Real(r) })
+            builder_door(lm, m, kind == SolverKind::BuilderDoorMicrolpAux, |v| match v { rooc::MILPValue::Bool(b) => Val::Bool(b), rooc::MILPValue::Int(i) => Val::Int(i), rooc::MILPValue::Real(r) => Val::Real(r) })
         }
-        SolverKind::BuilderDoorClarabel => builder_door(lm, rooc::Clarabel, Val::Real),
+        SolverKind::BuilderDoorClarabel => builder_door(lm, rooc::Clarabel, false, Val::Real),
         SolverKind::RawMilp => raw_milp(lm, o, pin),
         SolverKind::RawMicroLp => raw_microlp(lm, pin),
         SolverKind::RawClarabel => raw_clarabel(lm),
